@@ -83,6 +83,9 @@ def run_family(prop: str, fam: str, tier: str, seed: int, num: int, depth: int, 
         pf = partial_frame_step(r["ev"])
         if pf and (v["res"] == "ok" or pf < v.get("step", 0)):
             v = {"tid": v["tid"], "res": "fail", "step": pf, "props": ["C05.PartialFrame"]}
+        # the manager thread died with an exception: C03, whatever else the trace shows
+        if r.get("crashed") and not str(r["crashed"]).startswith(("WouldBlock", "HarnessError")):
+            v = dict(v, res="fail", props=sorted(set(v.get("props", [])) | {"C03"}), step=v.get("step") or len(r["ev"]))
         if v["res"] == "ok":
             nok += 1
             continue
